@@ -1,4 +1,71 @@
-From Emitter Require Import Lib.Base Model.Broker.
-Theorem C08_placeholder : presenceW = 3869262148.
-Proof. reflexivity. Qed.
-Print Assumptions C08_placeholder.
+(* C08 - A connection that ends leaves nothing behind; its last will fires once.
+   Model: close_conn / on_last_will of Model/Broker.v (Conn.Close: unsubscribe every counter through
+   the same path as UNSUBSCRIBE, then the last will, then the slot is gone).  All ways of ending reach
+   Conn.Close (the harness cuts real sessions at every byte and ends them by DISCONNECT, abrupt
+   close, malformed and panicking packets). *)
+From Emitter Require Import Lib.Base Model.MsgCodec Model.Channel Model.Key Model.Trie Model.Store Model.Broker
+     Spec.PubSub Spec.BrokerSpec Proofs.BrokerProofs Proofs.BrokerStep.
+
+(* the slot is gone (nothing is delivered to it any more: delivery goes through conn_of_sub), exactly
+   the connection's counted subscriptions - ordinary, presence-change and link-created ones all live
+   in the same counters - leave the index, nobody else's entry moves, and one 'unsubscribe'
+   notification per subscription is queued, in the order the subscriptions were made *)
+Theorem C08_close_removes_exactly_its_subscriptions : forall {I} (X : ixops I) abs inv, IxSpec X abs inv ->
+  forall e (b : @broker I) i c,
+  inv (b_trie b) -> get_conn (b_conns b) (N.to_nat i) = Some c -> NoDup (map k_ssid (cn_ctrs c)) ->
+  let r := close_conn X e b i c in
+  get_conn (b_conns r) (N.to_nat i) = None
+  /\ (forall p, In p (abs (b_trie r)) <-> In p (abs (b_trie b)) /\ forall k, In k (cn_ctrs c) -> p <> (k_ssid k, cn_sub c))
+  /\ b_queue r = b_queue b ++ map (fun k => Notif false (0 :: presenceW :: k_ssid k) (k_chan k) i (cn_user c)) (cn_ctrs c).
+Proof. intros I X abs inv HS. exact (close_cleans X abs inv HS). Qed.
+Print Assumptions C08_close_removes_exactly_its_subscriptions.
+
+(* with bookkeeping that covers the index (what F1 broke: two filters sharing one counter), nothing
+   of the connection is left and every other subscriber's entries are untouched *)
+Theorem C08_nothing_left_behind : forall {I} (X : ixops I) abs inv, IxSpec X abs inv ->
+  forall e (b : @broker I) i c,
+  inv (b_trie b) -> get_conn (b_conns b) (N.to_nat i) = Some c -> NoDup (map k_ssid (cn_ctrs c)) ->
+  (forall f, In (f, cn_sub c) (abs (b_trie b)) -> has_ctr c f = true) ->
+  let r := close_conn X e b i c in
+  (forall f, ~ In (f, cn_sub c) (abs (b_trie r)))
+  /\ (forall f s, s <> cn_sub c -> (In (f, s) (abs (b_trie r)) <-> In (f, s) (abs (b_trie b)))).
+Proof. intros I X abs inv HS. exact (close_leaves_nothing X abs inv HS). Qed.
+Print Assumptions C08_nothing_left_behind.
+
+(* the bookkeeping invariant is kept by subscribing: a filter is added to the counters exactly when
+   it is added to the index *)
+Theorem C08_bookkeeping_follows_index : forall {I} (X : ixops I) (b : @broker I) i c ssid ch,
+  has_ctr c ssid = false ->
+  b_trie (subscribe_ev X b i c ssid ch) = ix_subscribe X ssid (cn_sub c) (b_trie b)
+  /\ b_queue (subscribe_ev X b i c ssid ch) = b_queue b ++ [Notif true (0 :: presenceW :: ssid) ch i (cn_user c)].
+Proof. intros I X b i c ssid ch H. destruct (subscribe_ev_effect X b i c ssid ch H) as (A & B & _). auto. Qed.
+Print Assumptions C08_bookkeeping_follows_index.
+
+(* the last will is published exactly once, to the current subscribers of its channel, iff it was
+   supplied with a key that allows publishing there *)
+Theorem C08_last_will_once : forall {I} (X : ixops I) abs inv, IxSpec X abs inv ->
+  forall e (b : @broker I) c retain topic msg k,
+  inv (b_trie b) -> cn_will c = Some (Will retain topic msg) ->
+  let ch := parse_channel topic in
+  (c_type ch =? ChannelStatic) = true -> auth e ch AllowWrite = Some k -> has_permission k AllowExtend = false ->
+  exists tg, b_out (on_last_will X e b c) = b_out b ++ map (fun i => (i, PMsg (c_chan ch) msg)) tg /\ NoDup tg
+    /\ forall i, In i tg <-> exists s f, In (f, s) (abs (b_trie b)) /\ matches (e_mqtt e) f (key_contract k :: c_query ch) = true
+                                       /\ conn_of_sub (b_conns b) s 0 = Some i.
+Proof. intros I X abs inv HS. exact (last_will_once X abs inv HS). Qed.
+Print Assumptions C08_last_will_once.
+
+Theorem C08_last_will_silent_otherwise : forall {I} (X : ixops I) e (b : @broker I) c,
+  (cn_will c = None
+   \/ (exists retain topic msg, cn_will c = Some (Will retain topic msg)
+         /\ ((c_type (parse_channel topic) =? ChannelStatic) = false \/ auth e (parse_channel topic) AllowWrite = None
+             \/ exists k, auth e (parse_channel topic) AllowWrite = Some k /\ has_permission k AllowExtend = true))) ->
+  on_last_will X e b c = b.
+Proof. intros I X. exact (last_will_silent X). Qed.
+Print Assumptions C08_last_will_silent_otherwise.
+
+Example C08_nonvacuous :
+  let c := Conn 5 [] None true [Ctr [7; 11] [97]; Ctr [7; 12] [98]] [] in
+  let b := B [([7; 11], 5); ([7; 12], 5); ([7; 11], 6)] [Some c; Some (Conn 6 [] None true [Ctr [7; 11] [97]] [])] [] 0 [] [] in
+  let r := close_conn held_ix (Env false 7 0 0%Z [] 0) b 0 c in
+  b_trie r = [([7; 11], 6)] /\ get_conn (b_conns r) 0 = None /\ length (b_queue r) = 2%nat.
+Proof. vm_compute. repeat split. Qed.
